@@ -15,6 +15,7 @@
 
 
 from fractions import Fraction
+import os
 import re
 import sys
 import unified_planning as up
@@ -252,6 +253,9 @@ class ANMLWriter:
             ],
             str,
         ] = {}
+        if os.environ.get("UP_VERIF") == "1":
+            # verification hook H1: expose the (otherwise local) renaming table
+            self._verif_names_mapping = names_mapping
         # Init names_mapping.
         env = self.problem.environment
         names_mapping[env.type_manager.BoolType()] = "boolean"
